@@ -97,7 +97,8 @@ Section Total.
     destruct (count_true_ok (less ++ [ri])) as [ct Hct].
     { intros x Hx. apply in_app_iff in Hx. destruct Hx as [Hx|[<-|[]]]; [apply Hshape; exact Hx|].
       apply Hroots_bool. eapply nth_res_in; exact Hri. }
-    rewrite Hct. simpl. eexists; reflexivity.
+    rewrite Hct. simpl. unfold py_then. rewrite (Hbool ai (nth_res_in _ _ _ Hai)).
+    destruct acyclic; simpl; eexists; reflexivity.
   Qed.
 End Total.
 
